@@ -168,6 +168,8 @@ def mk_replay(pid, checks, check_entry=None, model=True):
         import json as _j
         if _j.load(open(path)).get("concurrent"):
             return conc_replay(pid, bins, path)
+        if _j.load(open(path)).get("big"):
+            return big_replay(bins, path)
         holder = [None]
         checks2 = [c(holder) if getattr(c, "__name__", "") in ("chk_singleton_law", "chk_model_verdict") else c for c in checks]
         d = Differential(run, bins, (lambda c: "causal_model_entry") if model else None, None,
@@ -229,6 +231,7 @@ def conc_phase(run, d, bins, cases, pid=None):
                        "note": "the interleaving is chosen by the OS scheduler: the replay repeats the stress run and reports whether the discrepancy shows again"})
         break
     run.cov["concurrent_reasoning"] = {"models": len(lines), "agree": n_ok, "reasoning_calls": total_calls, "threads": 2}
+    big_phase(run, bins, pid)
 
 
 def conc_replay(pid, bins, path):
@@ -240,5 +243,53 @@ def conc_replay(pid, bins, path):
         got = [int(x) for x in outs[0].split()] if outs else None
         print("attempt", attempt, "got", got, "want", dj["want"] + [0, 0])
         if got != dj["want"] + [0, 0]: bad = True; break
+    print("REPRODUCED" if bad else "not reproduced")
+    return 1 if bad else 0
+
+
+def big_phase(run, bins, pid=None):
+    """LARGE graphs of singleton causaloids (harness family causalbig), beyond what the list-based model evaluates in reasonable
+    time. The expected answers are C01's theorem in closed form (the verdict is the conjunction over the causaloids reachable from
+    the root; the walk evaluates them in chain order up to the first false one): long chains of 65..1200 causaloids with one false
+    member at a chosen position (or none), and graphs of 70 000 / 140 000 causaloids whose reachable part is small."""
+    pid = pid or run.prop
+    rng = run.rng
+    lines = []; want = []
+    chain_sizes = [65, 129, 300, 1200] if run.thorough else [rng.choice([65, 70, 129]), rng.choice([200, 300])]
+    for n in chain_sizes:
+        for k in {-1, n - 1, rng.randrange(64, n), rng.randrange(0, min(n, 64))}:
+            lines.append(f"causalbig {n} {k}"); want.append([0, k + 1, 0] if 0 <= k < n else [1, n, 1])
+    for n in ([70000, 140000] if run.thorough else [70000]):
+        lines.append(f"causalbig {n}"); want.append([n, 1, 1, 0, 1, 0])
+    rc, outs, err = run_lines(bins["release"], lines, line_timeout=120)
+    n_ok = 0
+    for k, (ln, w) in enumerate(zip(lines, want)):
+        run.cov["evaluations"] += 1
+        o = outs[k] if k < len(outs) else "<no answer>"
+        try:
+            got = [int(x) for x in o.split()]
+        except ValueError:
+            got = None
+        if got == w:
+            n_ok += 1; continue
+        if len(w) == 3:
+            why = (f"chain of {ln.split()[1]} causaloids, the only false one at index {ln.split()[2]} (-1 = none): reason_all_causes / number of evaluations / the same through a wrapping "
+                   f"causaloid are {got}, the conjunction over the reachable causaloids gives {w} (1 true, 0 false)")
+        else:
+            why = (f"graph of {ln.split()[1]} causaloids (root 0, edges 0->1->2, 0->3; the causaloids from index 60000 on evaluate false but are not reachable): size, reason_all_causes, "
+                   f"shortest-path reasoning 0->2, id at index 0, contains(last), reason_single_cause(last) are {got}, expected {w}")
+        run.violation({"kind": "property-oracle-failed-on-implementation", "why": why, "harness_line": ln, "expected": fmt(w), "got": o, "big": True,
+                       "rerun": f"cd /verif && python3 bin/check.py {pid} --replay <this file>"})
+        break
+    run.cov["large_graphs"] = {"cases": len(lines), "agree_with_the_closed_form": n_ok}
+
+
+def big_replay(bins, path):
+    import json
+    dj = json.load(open(path))
+    rc, outs, err = run_lines(bins["release"], [dj["harness_line"]], line_timeout=120)
+    got = outs[0] if outs else "<no answer>"
+    print("expected:", dj["expected"], " got:", got)
+    bad = got.split() != dj["expected"].split()
     print("REPRODUCED" if bad else "not reproduced")
     return 1 if bad else 0
